@@ -126,7 +126,7 @@ def body_gff3(ch, ctx):
     sname, spec = SPECS[si]
     nlines = 3 if ctx.tier == "quick" else 4
     pattern = PATTERNS[pi]
-    feats, texts, file_texts = [], [], []
+    feats, texts, file_texts, alt_texts = [], [], [], []
     kinds = []
     for i in range(nlines):
         kind = ch.choose("line%d" % i, LINEKINDS)
@@ -151,8 +151,10 @@ def body_gff3(ch, ctx):
         texts.append("\t".join([cols["seqid"], cols["source"], ft, str(cols["start"]), str(cols["end"]), ".", cols["strand"], ".",
                                 ";".join("%s=%s" % (k, ",".join(_ENC(v) for v in attrs[k])) for k in order)]))
         # what goes into the file: odd lines write their two ID values by repeating the key (ID=a;ID=b) instead of a comma list
-        file_texts.append(texts[-1] if not (kind == "two_ids" and i % 2) else
-                          texts[-1].replace("ID=%s" % ",".join(_ENC(v) for v in attrs["ID"]), ";".join("ID=%s" % _ENC(v) for v in attrs["ID"])))
+        repeated_form = texts[-1] if kind != "two_ids" else \
+            texts[-1].replace("ID=%s" % ",".join(_ENC(v) for v in attrs["ID"]), ";".join("ID=%s" % _ENC(v) for v in attrs["ID"]))
+        alt_texts.append(repeated_form)            # how the line prints when the file's dialect says 'repeated keys'
+        file_texts.append(repeated_form if (kind == "two_ids" and i % 2) else texts[-1])
         feats[-1] = (ft, cols, {k: v for k, v in attrs.items()})
     try:
         exp = ref_ids("ID" if spec is None else spec, feats)
@@ -181,7 +183,7 @@ def body_gff3(ch, ctx):
     if not ctx.check(ids == exp, "keys-differ-from-id_spec", sig, lines=texts, got=ids, expected=exp):
         return
     ctx.check(len(set(ids)) == len(ids), "keys-not-unique", sig, ids=ids)
-    for key, text, ftext, f in zip(exp, texts, file_texts, feats_db):
+    for key, text, ftext, f in zip(exp, texts, alt_texts, feats_db):
         text = text.replace(";ID=;", ";ID;")      # an empty 'ID=' is printed as a valueless flag (print round trip is C07's business)
         # (two values print as a comma list or as a repeated key, whichever the file's dialect says: also C07's business)
         ok_texts = (text, ftext)
